@@ -33,10 +33,13 @@ Record sstate := {
   recvq : list (bytes * bytes);              (* (packet, ClientID), oldest first *)
   sendqs : list (bytes * list bytes);        (* ClientID -> outgoing queue, oldest first *)
   accepted : list (bytes * bytes);           (* ghost: (ClientID, packet) accepted by WriteTo, oldest first *)
-  delivered : list (bytes * bytes)           (* ghost: what ReadFrom returned, oldest first *)
+  delivered : list (bytes * bytes);          (* ghost: what ReadFrom returned, oldest first *)
+  consumed : list (option nat * bytes * bytes)
+             (* ghost: every packet taken off an outgoing queue, in order: (Some i = written to carrier i | None = lost
+                because WriteData failed, ClientID of the queue, packet) *)
 }.
 
-Definition sinit : sstate := {| carriers := []; recvq := []; sendqs := []; accepted := []; delivered := [] |}.
+Definition sinit : sstate := {| carriers := []; recvq := []; sendqs := []; accepted := []; delivered := []; consumed := [] |}.
 
 Definition new_carrier : carrier :=
   {| k_state := K_Token; k_cid := []; k_buf := []; k_up := []; k_down := []; k_wire := [] |}.
@@ -114,7 +117,7 @@ Fixpoint enqueue_all (cid : bytes) (ps : list bytes) (q : list (bytes * bytes)) 
 Definition sstep (s : sstate) (o : sop) : sstate :=
   match o with
   | S_New => {| carriers := carriers s ++ [new_carrier]; recvq := recvq s; sendqs := sendqs s;
-                accepted := accepted s; delivered := delivered s |}
+                accepted := accepted s; delivered := delivered s; consumed := consumed s |}
   | S_Recv i b =>
       match nth_error (carriers s) i with
       | Some k =>
@@ -123,18 +126,18 @@ Definition sstep (s : sstate) (o : sop) : sstate :=
           | _ =>
               let '(k', ps) := pump (S (S (S (length (k_buf k) + length b)))) (with_buf (k_buf k ++ b) k) in
               {| carriers := kupd i (fun _ => k') (carriers s); recvq := enqueue_all (k_cid k') ps (recvq s);
-                 sendqs := sendqs s; accepted := accepted s; delivered := delivered s |}
+                 sendqs := sendqs s; accepted := accepted s; delivered := delivered s; consumed := consumed s |}
           end
       | None => s
       end
   | S_Close i =>
       {| carriers := kupd i kill (carriers s); recvq := recvq s; sendqs := sendqs s;
-         accepted := accepted s; delivered := delivered s |}
+         accepted := accepted s; delivered := delivered s; consumed := consumed s |}
   | S_WriteTo cid p =>
       let q := q_lookup cid (sendqs s) in
       if (length q <? QUEUE_SIZE)%nat
       then {| carriers := carriers s; recvq := recvq s; sendqs := q_set cid (q ++ [p]) (sendqs s);
-              accepted := accepted s ++ [(cid, p)]; delivered := delivered s |}
+              accepted := accepted s ++ [(cid, p)]; delivered := delivered s; consumed := consumed s |}
       else s
   | S_Send i =>
       match nth_error (carriers s) i with
@@ -146,10 +149,12 @@ Definition sstep (s : sstate) (o : sop) : sstate :=
                   {| carriers := kupd i (fun k => {| k_state := K_Open; k_cid := k_cid k; k_buf := k_buf k; k_up := k_up k;
                                                      k_down := k_down k ++ [p]; k_wire := k_wire k ++ w |}) (carriers s);
                      recvq := recvq s; sendqs := q_set (k_cid k) q' (sendqs s);
-                     accepted := accepted s; delivered := delivered s |}
+                     accepted := accepted s; delivered := delivered s;
+                     consumed := consumed s ++ [(Some i, k_cid k, p)] |}
               | None =>   (* WriteData error: the packet is lost and the carrier stops *)
                   {| carriers := kupd i kill (carriers s); recvq := recvq s; sendqs := q_set (k_cid k) q' (sendqs s);
-                     accepted := accepted s; delivered := delivered s |}
+                     accepted := accepted s; delivered := delivered s;
+                     consumed := consumed s ++ [(None, k_cid k, p)] |}
               end
           | _, _ => s
           end
@@ -158,7 +163,7 @@ Definition sstep (s : sstate) (o : sop) : sstate :=
   | S_ReadFrom =>
       match recvq s with
       | x :: q' => {| carriers := carriers s; recvq := q'; sendqs := sendqs s; accepted := accepted s;
-                      delivered := delivered s ++ [x] |}
+                      delivered := delivered s ++ [x]; consumed := consumed s |}
       | [] => s
       end
   end.
